@@ -106,12 +106,12 @@ def tensor_cases(ctx, report, with_grad=True):
     """The tensor-operation catalogue at the tier's constants."""
     F = TENSOR_FAMILIES
     if ctx.quick:
-        cases = generate(report, "OpCatalog", F, dict(Sizes={1, 2}, MaxRank=3, MaxBasis=8), with_grad)
+        cases = generate(report, "OpCatalog", F, dict(Sizes={1, 2}, MaxRank=3, MaxBasis=8, Pats={"A"}), with_grad)
         cases += generate(report, "OpCatalog", ["bin", "matmul", "addmm", "concat", "stack", "red", "ext", "unfold", "getitem"],
-                          dict(Sizes={1, 2, 3}, MaxRank=2, MaxBasis=9), with_grad)
+                          dict(Sizes={1, 2, 3}, MaxRank=2, MaxBasis=9, Pats={"A", "S"}), with_grad)
     else:
-        cases = generate(report, "OpCatalog", F, dict(Sizes={1, 2, 3}, MaxRank=3, MaxBasis=27), with_grad, timeout=20000)
-        cases += generate(report, "OpCatalog", ["squeeze", "reshape", "move", "red", "ext"], dict(Sizes={1, 2}, MaxRank=4, MaxBasis=16), with_grad, timeout=20000)
+        cases = generate(report, "OpCatalog", F, dict(Sizes={1, 2, 3}, MaxRank=3, MaxBasis=27, Pats={"A", "S"}), with_grad, timeout=20000)
+        cases += generate(report, "OpCatalog", ["squeeze", "reshape", "move", "red", "ext"], dict(Sizes={1, 2}, MaxRank=4, MaxBasis=16, Pats={"A"}), with_grad, timeout=20000)
     # de-duplicate across the two grids
     seen, out = set(), []
     for c in cases:
